@@ -514,9 +514,8 @@ class Exec:
         cells = o.cells
         for k in range(max(0, off - 15), off + size):
             c = cells.get(k)
-            if c is not None and k + c[0] > off and not (k == off and c[0] == size):
-                if c[0] > 1:
-                    self._split(o, k)
+            if c is not None and c[0] > 1 and k + c[0] > off and (k < off or k + c[0] > off + size):
+                self._split(o, k)          # only cells straddling an end of the range need byte granularity
         for k in range(off, off + size):
             cells.pop(k, None)
 
